@@ -288,6 +288,58 @@ def run(ck: Check, prog: Program) -> None:
     if not ok_s:
         p2.append(('ELEMENTWISE', 'single request is not matched with its own method, params and id', onr.node.lineno,
                    'a single request must be answered by _match_request(endpoint, version, method, params, id) of the request parsed from the text'))
+    # async transports: the patched transport is a coroutine function, so what it returns must be awaited by the replacement and every
+    # reply of _on_request in async mode (mocked reply AND passthrough) must be an awaitable the replacement awaits
+    st = ci.methods.get('start')
+    if st is None:
+        raise AnalysisError('PjRpcMocker.start not found')
+    ck.functions.add(st.qualname)
+    # async replacement functions: nested in start() or private coroutine methods of the class that start() hands to the patcher
+    async_effects = [x for x in ast.walk(st.node) if isinstance(x, ast.AsyncFunctionDef)]      # (same-named twin definitions: by AST)
+    names_in_start = {x.attr for x in ast.walk(st.node) if isinstance(x, ast.Attribute) and dotted(x.value) == 'self'}
+    async_effects += [m.node for m in ci.methods.values() if m.is_async and m.name in names_in_start]
+    relay = []
+    for g in async_effects:
+        for b_ in g.body:
+            for x in ast.walk(b_):
+                if isinstance(x, ast.Call) and dotted(x.func) == 'self._on_request':
+                    relay.append((g, x))
+    ok_a = bool(relay)
+    for g, call in relay:
+        awaited = any(isinstance(y, ast.Await) and y.value is call for b_ in g.body for y in ast.walk(b_))
+        if not awaited:
+            ok_a = False
+    if not ok_a:
+        p2.append(('FALLBACKS', 'async replacement does not await the reply', st.node.lineno,
+                   'for an async transport the replacement coroutine must `return await self._on_request(...)`: otherwise the passthrough '
+                   'to the real (async) transport hands the caller an un-awaited coroutine object instead of the reply text'))
+    # _on_request in async mode: the mocked reply is wrapped into an awaitable (a nested coroutine or a coroutine method)
+    ty2 = types_of(prog)
+    sc2 = FuncScope(onr, ty2)
+
+    def is_coro_call(v: ast.AST) -> bool:
+        if not isinstance(v, ast.Call):
+            return False
+        if isinstance(v.func, ast.Name) and v.func.id in onr.nested and onr.nested[v.func.id].is_async:
+            return True
+        tg = ty2.callees(v, sc2)
+        return bool(tg) and all(k == 'func' and getattr(o, 'is_async', False) for k, o in tg)
+    wrapped = [n for n in cfg2.stmt_nodes() if n.kind == 'stmt' and isinstance(n.ast, ast.Return) and n.ast.value is not None and is_coro_call(n.ast.value)]
+
+    def async_state(n: Node) -> Optional[bool]:
+        for g in guard_edges(cfg2, n):
+            k = classify_cond(prog, onr, g.src.ast)
+            if k.subject == 'self._async_resp' and k.kind == 'truthy':
+                return (g.label == 'T') != k.negated
+        return None
+    async_guarded = [n for n in wrapped if async_state(n) is True]
+    plain = [n for n in cfg2.stmt_nodes() if n.kind == 'stmt' and isinstance(n.ast, ast.Return) and n.ast.value is not None and n not in wrapped
+             and n not in pass_nodes]
+    plain_in_async = [n for n in plain if async_state(n) is not False]
+    if relay and (not async_guarded or plain_in_async):
+        p2.append(('FALLBACKS', 'mocked reply is not awaitable in async mode', onr.node.lineno,
+                   '_on_request must return an awaitable for every reply when the patched transport is async (the replacement awaits it), '
+                   'and the plain text only when it is sync'))
     for rule in ('FALLBACKS', 'ELEMENTWISE'):
         bad = [p for p in p2 if p[0] == rule]
         ck.ob(rule, f'_on_request: {rule}', not bad)
